@@ -621,9 +621,14 @@ def monOp0 (m : Mon) (op : String) (args : List String) (impl : List String) (tr
       let fwd := m.fwds.find? fun f => f.srv = name && f.slot = slot
       let tries := ((m.slots.find? (·.1 = name)).bind fun s => (s.2.find? (·.1 = slot)).map (·.2)).getD 0
       let ret0 := (headToks out).contains "ret=0"
+      -- C12: a reply under an identifier nothing is outstanding under (late, or a second copy) is IGNORED: it is not even refused,
+      -- which on a stream transport would reset the connection and have everything outstanding transmitted again
+      let slotEmpty := !((m.slots.find? (·.1 = name)).any fun s => s.2.any (·.1 = slot))
       let verdict :=
         match grown with
         | [] =>
+          if ret0 && slotEmpty && wellFormedLoose pkt && [2, 3, 5, 11].contains (codeOf pkt).toNat then
+            "bad C12:reply-under-an-identifier-with-nothing-outstanding-was-refused-instead-of-ignored" else
           (match fwd with
            | some f =>
              if ret0 && tries > 0 && replyAcceptable H sc.secret (authOf f.pkt) sc.reqMA pkt then "bad C04:authentic-reply-reset-the-connection"
@@ -674,9 +679,12 @@ def monOp0 (m : Mon) (op : String) (args : List String) (impl : List String) (tr
              let fwd := m.fwds.find? fun f => f.srv = name && f.slot = slot
              let tries := ((m.slots.find? (·.1 = name)).bind fun s => (s.2.find? (·.1 = slot)).map (·.2)).getD 0
              let resetFollows := ((rest'.drop 1).head?.map (·.startsWith "slept:")).getD false
+             let slotEmpty := !((m.slots.find? (·.1 = name)).any fun s => s.2.any (·.1 = slot))
              let verdict :=
                match grown with
                | [] =>
+                 if ret0 && slotEmpty && wellFormedLoose pkt && [2, 3, 5, 11].contains (codeOf pkt).toNat then
+                   "bad C12:reply-under-an-identifier-with-nothing-outstanding-was-refused-instead-of-ignored" else
                  (match fwd with
                   | some f =>
                     if ret0 && tries > 0 && replyAcceptable H sc.secret (authOf f.pkt) sc.reqMA pkt then "bad C04:authentic-reply-reset-the-connection"
@@ -750,8 +758,9 @@ def monOp0 (m : Mon) (op : String) (args : List String) (impl : List String) (tr
                  a.t = 26 && a.v.length > 4 &&
                  (let ve := beVal (a.v.take 4)
                   let forV := l.filter (·.1 = ve)
-                  -- the code uses the entries from the first one of this vendor on; with a single vendor in the list that is all of them
-                  !forV.isEmpty && (l.all (·.1 = ve)) && !(forV.any (·.2 = 256)) &&
+                  -- the code looks through the entries from the first one of this vendor on, to the end of the table: that is all of
+                  -- this vendor's entries, wherever entries of other vendors stand between them
+                  !forV.isEmpty && !(forV.any (·.2 = 256)) &&
                   match subsOf (a.v.length + 1) (a.v.drop 4) with
                   | none => false
                   | some subs => subs.any fun (st, _) => (forV.any (·.2 = st.toNat)) != r.whitelist))
